@@ -568,9 +568,62 @@ func ruleCMP5(c *Ctx) []Ob {
 		o.add(UNDECIDED, "Normalize", "-", "internal.Normalize not found")
 		return o.list
 	}
-	// kind switch: which reflect.Kind constants guard which return
+	// kind switch: which reflect.Kind constants guard which return. The switch is in
+	// Normalize or in a helper whose result Normalize returns.
+	kindFn := norm
+	{
+		countKinds := func(f *ssa.Function) int {
+			n := 0
+			ifEdges(f, func(cond ssa.Value, e edge) {
+				if b, ok := cond.(*ssa.BinOp); ok && b.Op == token.EQL && e.Branch {
+					if nn, ok := b.X.Type().(*types.Named); ok && nn.Obj().Pkg() != nil && nn.Obj().Pkg().Path() == "reflect" && nn.Obj().Name() == "Kind" {
+						n++
+					}
+				}
+			})
+			return n
+		}
+		seen := map[*ssa.Function]bool{}
+		var find func(f *ssa.Function, depth int) *ssa.Function
+		find = func(f *ssa.Function, depth int) *ssa.Function {
+			if f == nil || seen[f] || depth > 3 || len(f.Blocks) == 0 {
+				return nil
+			}
+			seen[f] = true
+			if countKinds(f) >= 5 {
+				return f
+			}
+			for _, ret := range returnsOf(f) {
+				rv, ok := returnedValue(ret, 0)
+				if !ok {
+					continue
+				}
+				for _, og := range origins(rv) {
+					var call *ssa.Call
+					switch x := og.(type) {
+					case *ssa.Call:
+						call = x
+					case *ssa.Extract:
+						call, _ = x.Tuple.(*ssa.Call)
+					}
+					if call == nil {
+						continue
+					}
+					if g := staticCallee(call); g != nil && c.IsLib(g) {
+						if r := find(g, depth+1); r != nil {
+							return r
+						}
+					}
+				}
+			}
+			return nil
+		}
+		if f := find(norm, 0); f != nil {
+			kindFn = f
+		}
+	}
 	kindEdges := map[int64][]edge{}
-	ifEdges(norm, func(cond ssa.Value, e edge) {
+	ifEdges(kindFn, func(cond ssa.Value, e edge) {
 		b, ok := cond.(*ssa.BinOp)
 		if !ok || b.Op != token.EQL || !e.Branch {
 			return
@@ -605,11 +658,11 @@ func ruleCMP5(c *Ctx) []Ob {
 		}
 		es := kindEdges[kv]
 		if len(es) == 0 {
-			o.add(VIOLATED, key, relPath(c, norm.Pos()), "Normalize has no case for reflect.%s: such values are rejected or fall through un-normalised", kn)
+			o.add(VIOLATED, key, relPath(c, kindFn.Pos()), "Normalize (%s) has no case for reflect.%s: such values are rejected or fall through un-normalised", c.fname(kindFn), kn)
 			continue
 		}
 		found := false
-		for _, ret := range returnsOf(norm) {
+		for _, ret := range returnsOf(kindFn) {
 			hit := false
 			for _, e := range es {
 				if e.to() == ret.Block() || e.to().Dominates(ret.Block()) {
@@ -646,7 +699,7 @@ func ruleCMP5(c *Ctx) []Ob {
 			}
 		}
 		if !found {
-			o.add(UNDECIDED, key, relPath(c, norm.Pos()), "no return is tied to the case for reflect.%s", kn)
+			o.add(UNDECIDED, key, relPath(c, kindFn.Pos()), "no return is tied to the case for reflect.%s", kn)
 		}
 	}
 	// every return of Normalize and helpers: canonical, nil, or a listed pass-through
@@ -1238,6 +1291,176 @@ func ruleCMP6(c *Ctx) []Ob {
 	}
 	if !found {
 		o.add(UNDECIDED, "struct-normaliser", "-", "no function of package internal branches on reflect.StructField.Anonymous")
+	}
+	return o.list
+}
+
+// ---------------------------------------------------------------- CMP7
+
+// CMP7: times are canonical after normalisation. Abstractly evaluating
+// internal.Normalize on an input whose dynamic type is time.Time or *time.Time
+// yields a value of dynamic type time.Time (or nil for a nil pointer) on every
+// path - never the pointer itself (which the BinaryMarshaler pass-through would
+// let through: a *time.Time implements it).
+func ruleCMP7(c *Ctx) []Ob {
+	o := newObs(c, "CMP7")
+	norm := c.lookupFunc("internal", "Normalize")
+	tt := c.timeType()
+	if norm == nil || tt == nil {
+		o.add(UNDECIDED, "Normalize", "-", "internal.Normalize or time.Time not found")
+		return o.list
+	}
+	for _, in := range []struct {
+		name string
+		t    types.Type
+	}{{"time.Time", tt}, {"*time.Time", types.NewPointer(tt)}} {
+		te := c.newTagEval()
+		outs := te.Eval(norm, []aval{tagOf(in.t)}, 0)
+		key := "Normalize(" + in.name + ")"
+		bad, undec := "", ""
+		for _, oc := range outs {
+			if oc.Panic {
+				bad = "panics: " + oc.Why
+				continue
+			}
+			v := oc.Vals[0]
+			// an error return is fine
+			if len(oc.Vals) > 1 && !(oc.Vals[1].K == aTag && oc.Vals[1].Tag == nil) && oc.Vals[1].K != aUnknown {
+				continue
+			}
+			switch {
+			case v.K == aTag && v.Tag == nil:
+			case v.K == aTag && types.Identical(v.Tag, tt):
+			case v.K == aTag:
+				bad = "returns a value of dynamic type " + typeString(v.Tag)
+			default:
+				undec = "result type not decided (" + v.String() + ")"
+			}
+		}
+		switch {
+		case bad != "":
+			o.add(VIOLATED, key, relPath(c, norm.Pos()), "%s: pointers are to be followed and times stored as time.Time; a *time.Time left in a document has type rank 0 in comparisons and is encoded without its zone", bad)
+		case undec != "" || len(outs) == 0:
+			o.add(UNDECIDED, key, relPath(c, norm.Pos()), "%s", undec)
+		default:
+			o.add(OK, key, relPath(c, norm.Pos()), "-> time.Time (or nil) on every path")
+		}
+	}
+	return softenUndecided(o.list)
+}
+
+// ---------------------------------------------------------------- EMPTY1
+
+// EMPTY1: the helpers that copy or transform document values keep empty
+// containers empty: a []interface{} or map[string]interface{} they return or
+// store into a container is never a nil value on a success path. (`var s
+// []interface{}` + append yields nil for an empty input; encoding/json writes
+// a nil slice as null, msgpack as nil: an empty array would read back as nil.)
+func ruleEMPTY1(c *Ctx) []Ob {
+	o := newObs(c, "EMPTY1")
+	empty := types.NewInterfaceType(nil, nil)
+	sliceT := types.NewSlice(empty)
+	mapT := types.NewMap(types.Typ[types.String], empty)
+	isContainer := func(t types.Type) bool { return types.Identical(t, sliceT) || types.Identical(t, mapT) }
+	mayBeNil := func(v ssa.Value) bool {
+		seen := map[ssa.Value]bool{}
+		var walk func(v ssa.Value) bool
+		walk = func(v ssa.Value) bool {
+			if v == nil || seen[v] {
+				return false
+			}
+			seen[v] = true
+			switch x := v.(type) {
+			case *ssa.Const:
+				return x.Value == nil
+			case *ssa.Phi:
+				for _, e := range x.Edges {
+					if walk(e) {
+						return true
+					}
+				}
+			case *ssa.MakeInterface:
+				return walk(x.X)
+			case *ssa.ChangeType:
+				return walk(x.X)
+			case *ssa.Call:
+				// append(nil, ...) over a loop that may not execute: the phi at the loop header
+				if b, ok := x.Common().Value.(*ssa.Builtin); ok && b.Name() == "append" {
+					return false
+				}
+			case *ssa.UnOp:
+				if al, ok := x.X.(*ssa.Alloc); ok && x.Op == token.MUL {
+					for _, sv := range storesTo(al) {
+						if walk(sv) {
+							return true
+						}
+					}
+					if len(storesTo(al)) == 0 {
+						return true // declared and never assigned: zero value
+					}
+				}
+			}
+			return false
+		}
+		return walk(v)
+	}
+	n := 0
+	for _, fn := range c.LibFuncs {
+		rel := c.pkgRel(fn)
+		if rel != "util" && rel != "internal" && rel != "document" {
+			continue
+		}
+		ei := errResultIndex(fn.Signature)
+		for _, b := range fn.Blocks {
+			for _, in := range b.Instrs {
+				switch x := in.(type) {
+				case *ssa.Return:
+					for i := range x.Results {
+						rv, ok := returnedValue(x, i)
+						if !ok {
+							continue
+						}
+						inner := stripIfaceOnly(rv)
+						if !isContainer(inner.Type()) {
+							continue
+						}
+						n++
+						key := fmt.Sprintf("%s/returned %s", c.fname(fn), typeString(inner.Type()))
+						if !mayBeNil(inner) {
+							o.add(OK, key, relPath(c, x.Pos()), "never the nil container on this return")
+							continue
+						}
+						// nil together with an error is the failure convention
+						if ei >= 0 && ei != i {
+							if ev, ok := returnedValue(x, ei); ok && c.provablyNonNil(fn, ev, b) {
+								o.add(OK, key, relPath(c, x.Pos()), "nil only together with a non-nil error")
+								continue
+							}
+						}
+						if _, isConst := inner.(*ssa.Const); isConst {
+							o.add(OK, key+" (explicit nil)", relPath(c, x.Pos()), "an explicit nil result (documented absence), not a transformed container")
+							continue
+						}
+						o.add(VIOLATED, key, relPath(c, x.Pos()), "a container built here can come out nil for an empty input (declared with `var` and only appended to / never made): an empty array or object of a document turns into nil when copied, exported (JSON null) or encoded")
+					}
+				case *ssa.MapUpdate:
+					inner := stripIfaceOnly(x.Value)
+					if !isContainer(inner.Type()) {
+						continue
+					}
+					n++
+					key := fmt.Sprintf("%s/stored %s", c.fname(fn), typeString(inner.Type()))
+					if mayBeNil(inner) {
+						o.add(VIOLATED, key, relPath(c, x.Pos()), "a container that can be nil for an empty input is stored into a document value")
+					} else {
+						o.add(OK, key, relPath(c, x.Pos()), "stored container is never nil")
+					}
+				}
+			}
+		}
+	}
+	if n == 0 {
+		o.add(UNDECIDED, "containers", "-", "no container-valued returns found in util/internal/document")
 	}
 	return o.list
 }
